@@ -237,7 +237,7 @@ func ReadTuplesInRange(path string, blockRange *BlockRange, includeDeleted bool)
 		return nil, err
 	}
 
-	return ReadTuples(data, includeDeleted), nil
+	return ReadTuples(data, !includeDeleted), nil
 }
 
 // BlockRangeStats contains statistics about a block range
